@@ -78,6 +78,36 @@ pub mod verif_clock {
     }
 }
 
+/// Verification-only schedule points (compiled only with `--cfg neumann_verif`).
+/// A harness installs a callback; named points in the 2PC lock / wait-for-graph code call it,
+/// which lets a test drive a chosen interleaving of two threads. Without a callback (and
+/// without the cfg) a point does nothing.
+#[cfg(neumann_verif)]
+pub mod verif_sched {
+    use std::sync::{Arc, RwLock};
+
+    /// Callback type: receives the name of the schedule point that was reached.
+    pub type Callback = Arc<dyn Fn(&'static str) + Send + Sync>;
+
+    static CALLBACK: RwLock<Option<Callback>> = RwLock::new(None);
+
+    /// Install (`Some`) or remove (`None`) the callback.
+    pub fn set(cb: Option<Callback>) {
+        *CALLBACK.write().unwrap_or_else(std::sync::PoisonError::into_inner) = cb;
+    }
+
+    /// Called by the instrumented code.
+    pub fn point(name: &'static str) {
+        let cb = CALLBACK
+            .read()
+            .unwrap_or_else(std::sync::PoisonError::into_inner)
+            .clone();
+        if let Some(cb) = cb {
+            cb(name);
+        }
+    }
+}
+
 /// Shard identifier.
 pub type ShardId = usize;
 
